@@ -1,4 +1,6 @@
 import WsVerif.Model.DimSem
+import WsVerif.Model.Stats
+import WsVerif.Model.Batch
 import WsVerif.Gen.DimsAudit
 /-!
 # C06 — regenerated audit of the axes every labelled-array call acts along
@@ -36,6 +38,25 @@ theorem reduce_pos_mixes :
     ∃ (g : Vec → Rat) (a : List Mat), (reduceAx .pos g a)[0]? ≠ (reduceAx .pos g [a.headD []])[0]? := by
   refine ⟨fun v => v.foldl (· + ·) 0, [[[1]], [[2]]], ?_⟩
   decide +kernel
+
+/-- **the semantics is the one the statistics model uses**: `oned` of the model (C01) is the `dir`-reduction of `DimSem` with the
+    reducer `Δθ·Σ`, so the batched direction integral is, position by position, the model's `oned` of that spectrum -/
+theorem reduce_dir_is_oned (ddv : Rat) (a : List Mat) (i : Nat) :
+    (reduceAx .dir (fun r => ddv * r.sum) a)[i]? = (a[i]?).map fun m => (Stats.oned ddv m).map fun x => [x] := by
+  rw [reduce_spectral_get .dir (by decide)]
+  cases a[i]? with
+  | none => rfl
+  | some m => simp [reduceMat, Stats.oned, List.map_map, Function.comp_def]
+
+/-- … and a statistic computed from it (any function `stat` of the 1-D spectrum: `hs`, `tm01`, moments, …) over a batch is the
+    batched operation of `Model/Batch.lean` (`opD1`), i.e. the map of the single-spectrum statistic -/
+theorem batched_stat_of_oned {β : Type} (ddv : Rat) (stat : Vec → β) (a : List Mat) :
+    (reduceAx .dir (fun r => ddv * r.sum) a).map (fun m => stat (m.map fun r => r.headD 0)) =
+      Batch.opD1 (fun m => stat (Stats.oned ddv m)) a := by
+  simp only [reduceAx, Batch.opD1, List.map_map]
+  apply List.map_congr_left
+  intro m _
+  simp [reduceMat, Stats.oned, List.map_map, Function.comp_def]
 
 /-- names: only `freq` and `dir` are spectral -/
 theorem axisOf_spectral (d : String) : axisOf d ≠ .pos ↔ (d = "freq" ∨ d = "dir") := by
